@@ -97,7 +97,7 @@ Definition toks_of_hops_meaning (hs : list hop) : list tok :=
    commands (spec):
      ref <text> <auto>   -> <host> (none | ok p | bad | lenient) (ok small fits x.. x.. | unspec | reject cls)
      ast <auto> <ast>    -> ok <text> <wf_route> <wf_spelling> (none | some small fits x.. x..) | ERR *)
-Definition handle (ts : list tok) : list tok :=
+Definition handle0 (ts : list tok) : list tok :=
   match ts with
   | cmd :: TText s :: r =>
       if is_sym "parse" cmd then
@@ -184,6 +184,17 @@ Definition handle (ts : list tok) : list tok :=
         end
       else [sym "ERR"; sym "badcmd"]
   | _ => [sym "ERR"; sym "badline"]
+  end.
+
+(* long <count> <char> <cmd> <text before> <text after> <args>* : the command on the string
+   before ++ char^count ++ after (the line parser of Base/Proto.v is quadratic in the length of one
+   token; the 4300-digit numerals of the int-limit boundary are sent run-length encoded) *)
+Definition handle (ts : list tok) : list tok :=
+  match ts with
+  | l :: TInt n :: TInt c :: cmd :: TText a :: TText b :: r =>
+      if is_sym "long" l then handle0 (cmd :: TText (a ++ repeat c (Z.to_nat n) ++ b) :: r)
+      else handle0 ts
+  | _ => handle0 ts
   end.
 
 Definition init_state : unit := tt.
